@@ -4,6 +4,28 @@ REAL_CODECS = ["fileformats/*.go (STL, OFF, PLY, CSV readers and writers)", "mod
                "model2d/import.go", "model2d/export.go", "model3d/triangulate.go", "Go runtime, bufio, encoding/csv"]
 
 PROPS = {
+    "C15": {
+        "race": False,
+        "level": "exploration",
+        "budget_s": {"quick": 25, "thorough": 1200},
+        "max_cases": {"quick": 60000, "thorough": 0},
+        "min_fields": ["tape"],
+        "zero_fields": ["tape"],
+        "rule": ("seeded workloads, one per (seed, index): a mesh / record list / PLY header+rows / OFF or ASCII-STL text is drawn from the "
+                 "choice tape (vertex pools with shared and duplicated vertices, degenerate faces, +-0, subnormals, values beyond float32, "
+                 "9-digit floats; PLY headers with zero-count elements, every scalar type, list lengths at type limits, three encodings), "
+                 "written through the library's writer into a simulated file, and read back through simulated readers under six legal "
+                 "delivery schedules (as-asked, 1-byte, seeded fragments, fragments+zero-length reads, data+EOF, all combined); the decoded "
+                 "value must equal the written one rounded to the format's precision under every schedule. OBJ/MTL/3MF are re-opened and "
+                 "re-parsed structurally. distinct_nontrivial = distinct (kind, tape) with a non-empty payload."),
+        "assumptions": [
+            "the harness's own ASCII-STL and OFF writers follow the formats' specifications",
+            "CSV and 3MF go through a Mesh (a set), so their faces are compared as multisets",
+            "PLY elements without properties are not generated (degenerate; zero bytes per binary row)",
+        ],
+        "components": {"real": REAL_CODECS + ["fileformats/wavefront_obj.go", "fileformats/3mf.go", "archive/zip, encoding/xml (re-parse)"],
+                       "stub": ["simio.Reader / simio.Writer (the simulated disk/stream)"], "shim": []},
+    },
     "C16": {
         "race": False,
         "level": "fault_enumeration",
